@@ -303,6 +303,22 @@ class Repo:
         return f'{os.path.relpath(mod.path, self.root)}:{getattr(node, "lineno", 0)}'
 
 
+def clone(node):
+    """Deep copy of an AST following `_fields` only (the parent links are not copied)."""
+    if isinstance(node, ast.AST):
+        new = node.__class__()
+        for f in node._fields:
+            if hasattr(node, f):
+                setattr(new, f, clone(getattr(node, f)))
+        for a in ('lineno', 'col_offset', 'end_lineno', 'end_col_offset'):
+            if hasattr(node, a):
+                setattr(new, a, getattr(node, a))
+        return new
+    if isinstance(node, list):
+        return [clone(x) for x in node]
+    return node
+
+
 def parent(node: ast.AST) -> Optional[ast.AST]:
     return getattr(node, '_parent', None)
 
